@@ -438,6 +438,11 @@ ModelEvent(h, st) ==
      [] st.call = "remove_empty" -> InplaceEv(st, h, TRUE, Fresh(RemoveEmpty(pre, a.axis)))
      [] st.call = "head" ->
           NewEv(st, h, a.n > 0 /\ a.m > 0, Fresh(HeadT(pre, a.n, a.m)), [ret_is_recv |-> FALSE])
+     [] st.call = "align_df" ->
+          LET common == SeqSet(a.index) \cap SeqSet(Ids(pre, a.axis))
+              r == Fresh(RemoveEmpty(FilterIds(pre, common, a.axis, FALSE), "whole"))
+          IN NewEv(st, h, common # {}, r,
+                   [ret_is_recv |-> FALSE, frame_index |-> IF common # {} THEN Ids(r, a.axis) ELSE <<>>])
      [] st.call = "sort_order" ->
           NewEv(st, h, TRUE, Fresh(SortOrder(pre, a.order, a.axis)), [ret_is_recv |-> FALSE])
      [] st.call = "sort" ->
@@ -703,6 +708,11 @@ StepsFor(call, h, recv, res, full) ==
     [] call = "head" ->
          {St(call, recv, res, [n |-> n, m |-> m]) :
             n \in (IF full THEN {0, 1, 2, 5} ELSE {1}), m \in (IF full THEN {0, 1, 2, 5} ELSE {2})}
+    [] call = "align_df" ->   \* the frame's index: any subset of the axis, in reverse order, with or without a stranger
+         UNION {{St(call, recv, res, [index |-> ix, axis |-> ax]) :
+                   ix \in (IF full THEN {Reverse(s) : s \in SubSeqsOf(Ids(t, ax))}
+                                       \cup {<<"zz">> \o Reverse(s) : s \in SubSeqsOf(Ids(t, ax))}
+                           ELSE {<<"zz">> \o Reverse(RestOf(Ids(t, ax)))})} : ax \in Axes}
     [] call = "sort_order" ->
          UNION {{St(call, recv, res, [order |-> o, axis |-> ax, form |-> f]) :
                    o \in (IF full THEN PermsOf(Ids(t, ax)) ELSE {Reverse(Ids(t, ax))}),
